@@ -4,7 +4,7 @@
 From Coq Require Import Lia ZifyBool Permutation.
 From Torf Require Import Base Pipeline PipelineProofs Tree OrderProofs FlowProofs ThreadProofs DeadlockProofs ConservationProofs ReaderDoneProofs
   DrainProofs ExceptionProofs LastCallProofs VerifyTrueProofs VerifyFalseProofs LastCallVerify CompleteProofs LastCallVerdict LastCallQuietGen
-  ReportProofs NoCallbackProofs NoCallbackGenProofs.
+  ReportProofs NoCallbackProofs NoCallbackGenProofs VerdictIffIntact.
 Open Scope Z_scope.
 
 Theorem uncancellable_generate_outcome c s r hs :
@@ -29,4 +29,18 @@ Proof.
   destruct (uncancellable_generate_outcome c s1 r1 hs Hn Hv Hp HY Htot H1 E1 V1) as [-> A].
   destruct (uncancellable_generate_outcome c s2 r2 hs Hn Hv Hp HY Htot H2 E2 V2) as [-> B].
   split; [reflexivity|rewrite A, B; reflexivity].
+Qed.
+
+(* ... and so is verification with a passive callback: two runs over the same content that return a verdict return the same one *)
+Theorem verify_schedule_independent c s1 s2 r1 r2 expd :
+  (1 <= cf_hashers c)%nat -> cf_verify c = Some expd -> cf_plan c = CbQuiet ->
+  Pipeline.zlen (yielded (cf_items c)) = Pipeline.zlen expd ->
+  reach c s1 -> reach c s2 -> s_result s1 = Some r1 -> s_result s2 = Some r2 -> verdict r1 -> verdict r2 -> r1 = r2.
+Proof.
+  intros Hn Hv Hp Hlen H1 H2 E1 E2 V1 V2.
+  pose proof (verify_quiet_verdict_iff_intact c s1 expd r1 Hn H1 Hv Hp Hlen E1 V1) as I1.
+  pose proof (verify_quiet_verdict_iff_intact c s2 expd r2 Hn H2 Hv Hp Hlen E2 V2) as I2.
+  destruct V1 as [->| ->]; destruct V2 as [->| ->]; try reflexivity.
+  - destruct I2 as [_ B]. symmetry. apply B. apply I1. reflexivity.
+  - destruct I1 as [_ B]. apply B. apply I2. reflexivity.
 Qed.
